@@ -124,8 +124,8 @@ def run(ctx):
             per_kt["/".join(sc.KT_FAST)] = {"rows": len(obs), "accepted": a, "mutations": len(mobs)}
             ctx.log("P-256 pass: %d rows executed, %d accepted, %d unsound accepts, %d byte mutations tried" % (len(obs), a, nv, ntried))
         # the other key types on a seeded sample (thorough: a larger one), always including every TLC candidate
-        nsamp = 6000 if ctx.thorough else 1200
-        msamp = 400 if ctx.thorough else 60
+        nsamp = 6000 if ctx.thorough else 800
+        msamp = 400 if ctx.thorough else 40
         for kt in (sc.KT_MIX if ctx.thorough else sc.KT_MIX[:3]):
             idx = sorted(set(ctx.rng.sample(range(len(V)), min(nsamp, len(V)))) | {i for i, v in enumerate(V) if v["v"] and not v["ok"]})
             midx = sorted(ctx.rng.sample(range(len(M)), min(msamp, len(M))))
